@@ -365,6 +365,20 @@ def run_config(pid, cfg, tier, seed, extra=None):
             family=fam, index=int(idx) if idx and idx.isdigit() else None, history=None,
             case=dict(asan_report=r.stderr[-3000:]), config=cfg))
         return res
+    if r.returncode < 0 and cfg != "asan" and not extra:
+        # The engine died from a signal (heap corruption, segmentation fault, ...). That can be the harness, or
+        # memory corruption caused by the subject's unsafe code. Attribute it by running the same property under
+        # AddressSanitizer: a sanitizer report is a verdict, anything else stays a machinery failure.
+        log(r.stderr[-1500:])
+        log(f"engine for {pid} in configuration {cfg} died with signal {-r.returncode}; re-running under AddressSanitizer to attribute it")
+        res2 = run_config(pid, "asan", tier, seed)
+        if res2["synthetic"]:
+            for v in res2["synthetic"]:
+                v["what"] += f" (the {cfg} build died with signal {-r.returncode})"
+            res["synthetic"] = res2["synthetic"]
+            return res
+        log(f"MACHINERY: engine for {pid} in configuration {cfg} died with signal {-r.returncode} and AddressSanitizer found nothing")
+        sys.exit(2)
     log(r.stderr[-6000:])
     log(f"MACHINERY: engine for {pid} in configuration {cfg} exited with {r.returncode}")
     sys.exit(2)
